@@ -547,11 +547,29 @@ pub fn track_registers(regs: &Arc<Mutex<(Vec<String>, Vec<String>)>>, v: &Value)
 }
 
 /// Install a sink that both tracks the registers (raw uuids) and logs canonicalised events.
+/// merges started and not yet ended (hook events `merge_start` / `registers` after end_merge);
+/// a merge that is abandoned never decrements it, so it is only used for bounded waits
+pub static MERGES_IN_FLIGHT: std::sync::atomic::AtomicI64 = std::sync::atomic::AtomicI64::new(0);
+
+/// wait (at most `max_ms`) until no started merge is still running
+pub fn settle_merges(max_ms: u64) {
+    let t0 = std::time::Instant::now();
+    while MERGES_IN_FLIGHT.load(std::sync::atomic::Ordering::SeqCst) > 0 && t0.elapsed() < std::time::Duration::from_millis(max_ms) {
+        std::thread::sleep(std::time::Duration::from_millis(1));
+    }
+}
+
 pub fn install_sink(tracer: &Tracer, regs: Arc<Mutex<(Vec<String>, Vec<String>)>>, extra: Option<Arc<dyn Fn(&'static str, &Value) + Send + Sync>>) {
     let t = tracer.clone();
+    MERGES_IN_FLIGHT.store(0, std::sync::atomic::Ordering::SeqCst);
     tantivy::verif::set_sink(Some(Arc::new(move |name, mut v| {
         if name == "registers" {
             track_registers(&regs, &v);
+            if v["after"] == json!("end_merge") {
+                MERGES_IN_FLIGHT.fetch_sub(1, std::sync::atomic::Ordering::SeqCst);
+            }
+        } else if name == "merge_start" {
+            MERGES_IN_FLIGHT.fetch_add(1, std::sync::atomic::Ordering::SeqCst);
         }
         crate::canon_value(&t, &mut v);
         if let Value::Object(m) = &mut v {
